@@ -604,6 +604,17 @@ func (p *parentStreamReader[T]) peek(idx int) (t T, err error) {
 	// 2. Initialize the 'next' field of this cpStreamElement with an empty cpStreamElement,
 	//    similar to the initialization in copyStreamReaders.
 	elem.once.Do(func() {
+		defer func() {
+			// a panic of the source while this element is filled must not leave a half-initialised element behind:
+			// every copy sees it as an error item at this position, followed by the end of the stream
+			if panicErr := recover(); panicErr != nil {
+				elem.item = streamItem[T]{err: safe.NewPanicErr(panicErr, debug.Stack())}
+				// the source is broken: the copies end after the error item
+				end := &cpStreamElement[T]{}
+				end.once.Do(func() { end.item = streamItem[T]{err: io.EOF} })
+				elem.next = end
+			}
+		}()
 		t, err = p.sr.Recv()
 		elem.item = streamItem[T]{chunk: t, err: err}
 		if err != io.EOF {
